@@ -78,11 +78,11 @@ JSONS = [b'{"clientVersionFromXml": "0,8,0,123", "a": [1, 2, 3]}', b'{}', b'{"na
 
 def gen_cases(ctx, n):
     rng = ctx.rng; cases = []
-    def mk(ext, stream, extra, level, strategy, prefix, pad):
+    def mk(ext, stream, extra, level, strategy, prefix, pad, zero_pad=False):
         co = zlib.compressobj(level, zlib.DEFLATED, 15, 8, strategy)
         z = co.compress(stream) + co.flush()
         padn = (-len(z)) % 8 if pad == 'min' else ((-len(z)) % 8) + 8 * pad
-        zpad = z + bytes(rng.randrange(256) for _ in range(padn))
+        zpad = z + (bytes(padn) if zero_pad else bytes(rng.randrange(256) for _ in range(padn)))
         return dict(ext=ext, stream=stream, b0=rng.choice(JSONS), extra=extra, prefix=prefix, zpad=zpad, level=level, strategy=strategy)
     # every stream length 0..64 (every length mod 8, empty stream), each key in turn
     for ln in range(0, 65):
@@ -96,12 +96,22 @@ def gen_cases(ctx, n):
     # stored (level 0) streams of zeros: all-zero plaintext blocks hit the `if previous_block:` shortcut
     for ln in (8, 16, 24, 64, 100):
         cases.append(mk(rng.choice(EXTS), bytes(ln), [], 0, 0, bytes(8), 'min'))
+    # zero padding (what the game writes) behind a zlib stream whose LAST bytes are zero themselves (an Adler-32 ending in 00 / 0000): the end of
+    # the payload must not be mistaken for padding; also the same streams with no padding at all (compressed length a multiple of 8)
+    found = 0; tries = 0
+    while found < 12 and tries < 200000:
+        tries += 1
+        stream = bytes(rng.randrange(256) for _ in range(rng.choice([3, 9, 40, 200])))
+        a = zlib.adler32(stream)
+        if a & 0xff == 0 and (found % 3 or a & 0xffff == 0 or tries > 60000):
+            lvl = rng.choice([0, 1, 6, 9])
+            cases.append(mk(EXTS[found % 3], stream, [], lvl, 0, bytes(8), rng.choice(['min', 1]), zero_pad=True)); found += 1
     while len(cases) < n:
         ln = rng.choice([0, 1, 7, 8, 9, 100, 1000, rng.randrange(0, 5000)])
         stream = bytes(rng.choice([0, 0, 65, rng.randrange(256)]) for _ in range(ln))
         extra = [rng.choice(JSONS + [b'', b'']) for _ in range(rng.randrange(0, 6))]
         cases.append(mk(rng.choice(EXTS), stream, extra, rng.randrange(0, 10), rng.choice([0, 1, 2, 3, 4]),
-                        bytes(rng.randrange(256) for _ in range(8)), rng.choice(['min', 'min', 1, 2])))
+                        bytes(rng.randrange(256) for _ in range(8)), rng.choice(['min', 'min', 1, 2]), zero_pad=rng.random() < 0.5))
     return cases
 
 
@@ -241,10 +251,14 @@ def run(ctx):
         # its own marker in the open info and an extra block, and the objects a parse returned are scribbled over afterwards (a later parse
         # must not see that)
         pth = os.path.join(tmp, 'dump.wowsreplay')
-        for name, stream in (('empty', b''), ('garbage', bytes(ctx.rng.randrange(256) for _ in range(301))), ('cut-in-packet', good[:len(good) // 2 + 5]), ('playable', good)):
+        for name, stream in (('empty', b''), ('garbage', bytes(ctx.rng.randrange(256) for _ in range(301))), ('cut-in-packet', good[:len(good) // 2 + 5]), ('playable', good), ('exe-only', good[:40]), ('no-version', b'')):
             for strict in (False, True):
                 dmp = os.path.join(tmp, 'dump-%s-%d.bin' % (name, strict))
                 engine = {'clientVersionFromXml': vs_, 'marker': '%s-%d' % (name, strict)}; extra = [{'blk': name, 'strict': strict}]
+                # (open infos WITHOUT the version key, or with the exe version only: the parser cannot play them, but what it returns as the
+                #  open info is still exactly the first block - nothing added, nothing removed)
+                if name == 'exe-only': engine = {'clientVersionFromExe': '0,9,4,0', 'marker': 'exe-only-%d' % strict}
+                if name == 'no-version': engine = {'marker': 'no-version-%d' % strict, 'nested': {'a': [1, 2, {'b': None}]}}
                 co = zlib.compressobj(6); z = co.compress(stream) + co.flush(); z += bytes((-len(z)) % 8)
                 model_write('wowsreplay', pth, json.dumps(engine).encode(), [json.dumps(e).encode() for e in extra], struct.pack('<II', len(stream), len(z)), z)
                 info = None
@@ -252,7 +266,8 @@ def run(ctx):
                 except Exception: pass
                 ctx.case(('raw-dump', name, strict))
                 got_dump = open(dmp, 'rb').read() if os.path.exists(dmp) else None
-                if got_dump != stream:
+                # (the dump is written once the version of the open info has selected a player: an open info without a version gets none - not judged)
+                if got_dump != stream and 'clientVersionFromXml' in engine:
                     ctx.violation(dict(kind='raw-dump', stream_kind=name, strict=strict, stream=stream[:400].hex(), dump=(got_dump[:200].hex() if got_dump is not None else 'no file written'),
                                        how='a well-formed 13.2.0 container around that stream, written to a path that held another container before; ReplayParser(path, strict, raw_data_output=f).get_info(); f must hold the stream'))
                 if info is not None:
